@@ -1,5 +1,5 @@
 """C12 -- no client message can take a driver, a connection or the server down."""
-from pyvc.runner import Check, TaskSpec, run_tasks, REPO
+from pyvc.runner import Check, TaskSpec, run_tasks, PY_FULL, REPO
 from contracts import driver as D, codec as K
 from checks import common, c04
 
@@ -16,7 +16,7 @@ def specs(tier):
         if m.split("@")[0] not in D.NEW_KINDS:
             out.append(TaskSpec("driver<-%s" % m.split("@")[0], "contracts.driver", "task_c12_other_kind", (m,), replay_kind="driver.hostile"))
     for w in ("tcp", "tty"):
-        out.append(TaskSpec("receive[%s]" % w, "contracts.transport", "task_c12_receive", (w,)))
+        out.append(TaskSpec("receive[%s]" % w, "contracts.transport", "task_c12_receive", (w,), replay_kind="transport.prompt", python=PY_FULL, scenario=True))
         out.append(TaskSpec("dispatch[%s]" % w, "contracts.transport", "task_c12_dispatch", (w,)))
     return out + c04.router_specs()
 
